@@ -1,18 +1,23 @@
 // Harness for C02, receive paths ("a decoded message owns its bytes"): real connections fed from a REUSED
 // buffer while earlier messages are still queued or inside their handler.
 //
-//   rxtcp <split> <nA> <nB> <frame>*   a tcp/client.Conn over net.Pipe (synctest bubble).  The peer pipelines the
-//         nA frames (written in chunks of <split> bytes, 0 = one write); the handler of the first message blocks, the
-//         others wait in the receive queue.  Then the nB frames (different content) are written: the session reads
-//         them into its stream buffer over the bytes of the first batch.  Then the handler is released.
-//   rxudp <n> <datagram>*             udp/client.Conn.Process called n times with ONE buffer that is overwritten
-//         after every call, the first handler blocking meanwhile.
+//	rxtcp <split> <nA> <nB> <frame>*   a tcp/client.Conn over net.Pipe (synctest bubble).  The peer pipelines the
+//	      nA frames (written in chunks of <split> bytes, 0 = one write); the handler of the first message blocks, the
+//	      others wait in the receive queue.  Then the nB frames (different content) are written: the session reads
+//	      them into its stream buffer over the bytes of the first batch.  Then the handler is released.
+//	rxudp <n> <datagram>*             udp/client.Conn.Process called n times with ONE buffer that is overwritten
+//	      after every call, the first handler blocking meanwhile.
 //
-//   rxmon <tcp-client|tcp-server|udp> <split> <n> <frame>*   the same connections (tcp-server: the connection a real
-//         tcp.Server makes for an accepted stream, options only) with a REQUEST MONITOR that drops every message whose
-//         code is 0.04 (DELETE).  Stream frames are written in chunks of <split> bytes (0 = one write: a dropped frame and
-//         the frame behind it are parsed by the same processBuffer call).  Output `rxm <delivered> | <msg> | …`: a
-//         message decoded behind a dropped one must have the fields of a fresh decode of its own bytes.
+//	rxmon <tcp-client|tcp-server|udp> <split> <n> <frame>*   the same connections (tcp-server: the connection a real
+//	      tcp.Server makes for an accepted stream, options only) with a REQUEST MONITOR that drops every message whose
+//	      code is 0.04 (DELETE).  Stream frames are written in chunks of <split> bytes (0 = one write: a dropped frame and
+//	      the frame behind it are parsed by the same processBuffer call).  Output `rxm <delivered> | <msg> | …`: a
+//	      message decoded behind a dropped one must have the fields of a fresh decode of its own bytes.
+//
+//	usrv2 <delayms> <npeers> <k> (<peer>:<datagram>)*   a real udp.Server on a loopback socket whose OnNewConn callback
+//	      sleeps <delayms> ms; the FIRST datagram of every peer is sent back to back (nothing is waited for), the remaining
+//	      ones after those were delivered.  Output `usrv2 <total> | p0 <msg> ; <msg> | p1 … | unknown=<…>`: per peer, what
+//	      the handler of that peer's connection received.
 //
 // Output: `rx <delivered> | <msg 0 on handler entry> | <msg 0 after the overwrite> | <msg 1> | …` — every message
 // as the application sees it after the later input has been read.
@@ -21,11 +26,13 @@ package c02rx
 import (
 	"bufio"
 	"fmt"
+	"net"
 	"strconv"
 	"strings"
 	"sync"
 	"testing"
 	"testing/synctest"
+	"time"
 
 	"github.com/plgd-dev/go-coap/v3/message/codes"
 	"github.com/plgd-dev/go-coap/v3/message/pool"
@@ -279,6 +286,53 @@ func runMonUDP(t *testing.T, dgrams [][]byte) (out string) {
 	return out
 }
 
+func runUDPServerPeers(delayMs, npeers int, sends [][2]any) string {
+	rig, err := codecx.StartUDPRig(options.WithOnNewConn(func(*udpclient.Conn) {
+		time.Sleep(time.Duration(delayMs) * time.Millisecond)
+	}))
+	if err != nil {
+		return "listen-error"
+	}
+	defer rig.Stop()
+	peers := make([]*net.UDPConn, npeers)
+	ports := make([]int, npeers)
+	for i := range peers {
+		c, port, e := rig.Peer()
+		if e != nil {
+			return "dial-error"
+		}
+		defer func() { _ = c.Close() }()
+		peers[i], ports[i] = c, port
+	}
+	seen := make([]bool, npeers)
+	var later [][2]any
+	sent := 0
+	for _, sd := range sends {
+		p := sd[0].(int)
+		if seen[p] {
+			later = append(later, sd)
+			continue
+		}
+		seen[p] = true
+		_, _ = peers[p].Write(sd[1].([]byte))
+		sent++
+	}
+	rig.Wait(sent, 1500*time.Millisecond)
+	for _, sd := range later {
+		_, _ = peers[sd[0].(int)].Write(sd[1].([]byte))
+		sent++
+		rig.Wait(sent, time.Second)
+	}
+	var parts []string
+	total := 0
+	for i, port := range ports {
+		got := rig.Of(port)
+		total += len(got)
+		parts = append(parts, fmt.Sprintf("p%d %s", i, strings.Join(got, " ; ")))
+	}
+	return fmt.Sprintf("usrv2 %d | %s | unknown=%s", total, strings.Join(parts, " | "), rig.Unknown(ports))
+}
+
 func parseHexList(f []string) ([][]byte, bool) {
 	out := make([][]byte, 0, len(f))
 	for _, s := range f {
@@ -331,6 +385,24 @@ func TestC02RX(t *testing.T) {
 					return runMonUDP(t, fr)
 				}
 				return "bad-op"
+			case len(f) >= 4 && f[0] == "usrv2":
+				delay, e1 := strconv.Atoi(f[1])
+				np, e2 := strconv.Atoi(f[2])
+				k, e3 := strconv.Atoi(f[3])
+				if e1 != nil || e2 != nil || e3 != nil || len(f) != 4+k || np < 1 || np > 16 {
+					return "bad-op"
+				}
+				var sends [][2]any
+				for _, x := range f[4:] {
+					ps, hx, ok := strings.Cut(x, ":")
+					p, e := strconv.Atoi(ps)
+					b, e2 := lp.ParseHex(hx)
+					if !ok || e != nil || e2 != nil || p < 0 || p >= np {
+						return "bad-op"
+					}
+					sends = append(sends, [2]any{p, b})
+				}
+				return runUDPServerPeers(delay, np, sends)
 			case len(f) >= 2 && f[0] == "rxudp":
 				n, e := strconv.Atoi(f[1])
 				if e != nil || len(f) != 2+n {
